@@ -297,3 +297,10 @@ def aliases(chk, F):
     for v, (name, zero, scale) in sorted(nbs.items()):
         chk.decide(("°" + name) in table.get(v, []), "aliases", "rink_core::ast::Degree::name_base_scale", "short-name:" + v, "",
                    "short name %s belongs to %s" % (name, v), "short name `%s` of %s is not one of its spellings" % (name, v))
+    # ... and no other scale is spelled with it: `deg<S>` / `°<S>` is scale S's, whoever else the lexer gives it to
+    owner = {name: v for v, (name, zero, scale) in nbs.items()}
+    wrong = sorted((n, v, owner[n[len(pre):]]) for v, names in table.items() for n in names for pre in ("deg", "°")
+                   if n.startswith(pre) and n[len(pre):] in owner and owner[n[len(pre):]] != v)
+    chk.decide(not wrong, "aliases", "rink_core::parsing::text_query lexer", "short-name-spellings-belong", "",
+               "every `deg<S>` / `°<S>` spelling is read as the scale whose short name is S",
+               "; ".join("`%s` is read as %s, it is the short name of %s" % w for w in wrong))
